@@ -328,6 +328,7 @@ pub async fn handle_srt_packet(
             //
             // Only data packets have seq != None (control packets have MSB set).
             if seq.is_some()
+                && !config_snap.mode.is_classic()
                 && (critical_window.is_critical_now(packet_time_ms)
                     || srtla_protocol::is_srt_data_retransmit(pkt))
                 && let Some(best_idx) = srtla_core::priority::select_best_eligible_quality_idx(
